@@ -1,5 +1,131 @@
-"""Second back end (Kani/CBMC): harness modules appended to a scratch copy of /repo.  Filled in below."""
+"""Second back end (Kani/CBMC).  Harness modules (kani/*.rs) are appended to a scratch copy of /repo's sources as
+child modules under cfg(kani), so they see private items and /repo itself is never touched."""
+import json
+import os
+import re
+import shutil
+import subprocess
+import time
+
+HERE = os.path.dirname(os.path.abspath(__file__))
+VERIF = os.path.dirname(HERE)
+
+APPEND = {
+    "timezone_mod.rs": "src/timezone/mod.rs",
+    "datetime_mod.rs": "src/datetime/mod.rs",
+    "datetime_find.rs": "src/datetime/find.rs",
+    "std_specs.rs": "src/utils/const_fns.rs",
+}
+
+
+def prepare(repo, work):
+    dst = os.path.join(work, "kani_repo")
+    if os.path.exists(dst):
+        shutil.rmtree(dst)
+    os.makedirs(dst)
+    shutil.copytree(os.path.join(repo, "src"), os.path.join(dst, "src"))
+    for f in ("Cargo.toml", "Cargo.lock"):
+        shutil.copy(os.path.join(repo, f), os.path.join(dst, f))
+    os.makedirs(os.path.join(dst, ".cargo"), exist_ok=True)
+    open(os.path.join(dst, ".cargo", "config.toml"), "w").write("[net]\noffline = true\n")
+    for h, target in APPEND.items():
+        hp = os.path.join(VERIF, "kani", h)
+        tp = os.path.join(dst, target)
+        if os.path.exists(hp) and os.path.exists(tp):
+            with open(tp, "a") as f:
+                f.write("\n" + open(hp).read())
+    return dst
+
+
+def run_harnesses(repo, work, harnesses, timeout=1500, extra_flags=()):
+    """returns {harness: dict(status: SUCCESSFUL|FAILED|UNDECIDED, seconds, failed_checks:[...], covers: (sat, total), output_tail)}"""
+    if not harnesses:
+        return {}
+    dst = prepare(repo, work)
+    cache = os.environ.get("VERIF_CACHE") or "/var/tmp/tzrs-verif-cache"
+    env = dict(os.environ, CARGO_NET_OFFLINE="true", CARGO_TARGET_DIR=os.path.join(cache, "kani-target"))
+    env.pop("RUSTFLAGS", None)
+    env.pop("RUSTUP_TOOLCHAIN", None)
+    results = {}
+    cmd = ["cargo", "kani", "-Z", "function-contracts", "-Z", "stubbing", "--output-format", "terse", "-j", str(min(8, len(harnesses)))] + list(extra_flags)
+    for h in harnesses:
+        cmd += ["--harness", h]
+    t0 = time.time()
+    try:
+        p = subprocess.run(cmd, cwd=dst, env=env, capture_output=True, text=True, timeout=timeout)
+        out = p.stdout + "\n" + p.stderr
+    except subprocess.TimeoutExpired as e:
+        out = (e.stdout or b"").decode(errors="replace") if isinstance(e.stdout, bytes) else (e.stdout or "")
+        out += "\nTIMEOUT"
+    dt = time.time() - t0
+    # split per harness (with -j the output is tagged "Thread k:")
+    seen, tmap, cur = {}, {}, None
+    for line in out.split("\n"):
+        m = re.match(r"^(?:Thread (\d+): )?Checking harness (\S+?)\.\.\.", line)
+        if m:
+            name = m.group(2).split("::")[-1]
+            tmap[m.group(1) or "-"] = name
+            seen.setdefault(name, "")
+            cur = name if m.group(1) is None else cur
+            continue
+        m = re.match(r"^Thread (\d+): *$", line)
+        if m:
+            cur = tmap.get(m.group(1))
+            continue
+        if cur is not None:
+            seen[cur] = seen.get(cur, "") + line + "\n"
+    compile_failed = ("error: could not compile" in out or "error[E" in out) and not seen
+    for h in harnesses:
+        ch = seen.get(h)
+        if ch is None:
+            results[h] = dict(status="UNDECIDED", seconds=dt, failed_checks=[], output_tail=out[-1500:], reason="harness did not run" + (" (compile error)" if compile_failed else ""))
+            continue
+        failed = re.findall(r"(?m)^Failed Checks: (.*)$", ch)
+        m = re.search(r"VERIFICATION:- (SUCCESSFUL|FAILED)", ch)
+        cov = re.search(r"(\d+) of (\d+) cover properties satisfied", ch)
+        status = m.group(1) if m else "UNDECIDED"
+        unwind_fail = any("unwinding assertion" in f for f in failed)
+        if status == "FAILED" and unwind_fail and all("unwinding assertion" in f for f in failed):
+            status = "UNDECIDED"
+        results[h] = dict(status=status, seconds=round(dt, 1), failed_checks=failed[:10], covers=(int(cov.group(1)), int(cov.group(2))) if cov else None, output_tail=ch[-1500:])
+    return results
 
 
 def run_for_property(repo, work, pid, prop, tier, seed, out):
-    return
+    """runs the Kani harnesses registered for the property (quick: prop['kani_quick'], thorough: + prop['kani_thorough'])"""
+    hs = list(prop.get("kani_quick", []))
+    if tier == "thorough":
+        hs += prop.get("kani_thorough", [])
+    if not hs:
+        return
+    res = run_harnesses(repo, work, hs)
+    cov = out.evidence["coverage"]
+    klist = []
+    out.kani_violations = getattr(out, "kani_violations", [])
+    n_ok = 0
+    for h in hs:
+        r = res[h]
+        bounded = prop.get("kani_bounded", {}).get(h)
+        klist.append(dict(harness=h, status=r["status"], seconds=r["seconds"], covers=r.get("covers"), bounded=bounded, backend="kani 0.68 / cbmc 6.11"))
+        if r["status"] == "SUCCESSFUL":
+            if r.get("covers") and r["covers"][0] < r["covers"][1]:
+                out.undecided.append("Kani harness %s: %d of %d cover properties unsatisfied (vacuity guard)" % (h, r["covers"][1] - r["covers"][0], r["covers"][1]))
+            n_ok += 1
+        elif r["status"] == "FAILED":
+            name = "kani:%s::%s" % (h, (r["failed_checks"] or ["?"])[0][:120])
+            import hashlib
+            rp = os.path.join(VERIF, "replay", "%s-%s.json" % (pid, hashlib.sha1(name.encode()).hexdigest()[:10]))
+            os.makedirs(os.path.dirname(rp), exist_ok=True)
+            json.dump(dict(property=pid, obligation=name, function=h, kind="kani", backend="kani/cbmc", kani_output=r["output_tail"], inputs=None), open(rp, "w"), indent=1)
+            out.kani_violations.append(dict(obligation=name, replay=rp, has_input=False))
+        else:
+            out.undecided.append("Kani harness %s undecided: %s" % (h, r.get("reason") or (r["failed_checks"] or ["no verdict"])[0]))
+    cov["kani_harnesses"] = klist
+    if not prop.get("verus", True):
+        cov["obligations"] = cov.get("obligations", 0) + len(hs)
+        cov["discharged"] = cov.get("discharged", 0) + n_ok
+    else:
+        cov["obligations"] = cov.get("obligations", 0) + len([h for h in hs if not prop.get("kani_bounded", {}).get(h)])
+        cov["discharged"] = cov.get("discharged", 0) + len([h for h in hs if res[h]["status"] == "SUCCESSFUL" and not prop.get("kani_bounded", {}).get(h)])
+        cov.setdefault("backends", {})["cbmc"] = len([h for h in hs if res[h]["status"] == "SUCCESSFUL" and not prop.get("kani_bounded", {}).get(h)])
+    cov["bounded_parts"] = [dict(harness=h, bound=b) for h, b in prop.get("kani_bounded", {}).items() if h in hs]
